@@ -5,7 +5,6 @@ package c03
 import (
 	"bytes"
 	"encoding/binary"
-	"encoding/json"
 	"fmt"
 	"io"
 	"log/slog"
@@ -43,7 +42,7 @@ func normTrace(tr []script.Event) []string {
 			}
 			ev.Ctx = &c
 		}
-		b, _ := json.Marshal(ev)
+		b, _ := core.MarshalCase(ev)
 		out = append(out, string(b))
 	}
 	return out
